@@ -437,17 +437,17 @@ namespace Dune {
 
     //! Binary vector addition
     template <class Other>
-    derived_type operator+ (const DenseVector<Other>& b) const
+    AutonomousValue<V> operator+ (const DenseVector<Other>& b) const
     {
-      derived_type z = asImp();
+      AutonomousValue<V> z = asImp();
       return (z+=b);
     }
 
     //! Binary vector subtraction
     template <class Other>
-    derived_type operator- (const DenseVector<Other>& b) const
+    AutonomousValue<V> operator- (const DenseVector<Other>& b) const
     {
-      derived_type z = asImp();
+      AutonomousValue<V> z = asImp();
       return (z-=b);
     }
 
